@@ -35,8 +35,12 @@ def variants(rng, files, full_builds, tier):
             vs.append(dict(partition=(k, n)))
     # local mode from every directory that declares apps (only when laze would not take a nested directory for the project root)
     if not any(f != "laze-project.yml" and f.endswith("laze-project.yml") for f in files):
-        for d in sorted(app_dirs(files)):
+        ad = app_dirs(files)
+        for d in sorted(ad):
             vs.append(dict(local=d))
+            named = sorted(n for n in ad[d] if n)
+            if named and len(ad) > 1:
+                vs.append(dict(local=d, apps=[rng.choice(named)]))       # local mode AND --apps naming an app of the start directory
     return vs
 
 def app_dirs(files):
@@ -81,6 +85,11 @@ def run(rep, tier, seed, rng):
     for (f, c), i, r in zip(cases, owner, sub):
         fr = full[i]
         if r["impl"]["rc"] != 0 or r["impl_raw"]["ninja"] is None:
+            if "local" in c and c.get("apps"):
+                ad = app_dirs(f); here = ad.get(c["local"], set()); elsewhere = set().union(*[v for d, v in ad.items() if d != c["local"]] or [set()])
+                if all(a in here - elsewhere for a in c["apps"]) and any(k[1] in c["apps"] for k in ((b["builder"], b["app"]) for b in fr["impl"]["builds"])):
+                    rep.violation("local mode from %r with --apps %s (declared there, built by the full run) fails: rc=%s" % (c["local"], c["apps"], r["impl"]["rc"]),
+                                  gen_common.replay_data(r), found_input=True)
             continue
         pf = ninja_parse.parse(fr["impl_raw"]["ninja"].decode("utf-8", "replace"))
         ps = ninja_parse.parse(r["impl_raw"]["ninja"].decode("utf-8", "replace"))
@@ -101,8 +110,8 @@ def run(rep, tier, seed, rng):
             # local mode: only apps declared in the start directory, and every build of an app declared only there
             ad = app_dirs(f); here = ad.get(c["local"], set()); elsewhere = set().union(*[v for d, v in ad.items() if d != c["local"]] or [set()])
             got = sorted((b["builder"], b["app"]) for b in r["impl"]["builds"])
-            must = sorted(k for k in fullb if k[1] in here - elsewhere)
-            if any(k[1] not in here for k in got) or any(k not in got for k in must):
+            must = sorted(k for k in fullb if k[1] in here - elsewhere and (c.get("apps") is None or k[1] in c["apps"]))
+            if any(k[1] not in here for k in got) or any(k not in got for k in must) or (c.get("apps") is not None and any(k[1] not in c["apps"] for k in got)):
                 rep.violation("local mode from %r configures %s; the apps declared there are %s and the full run has %s for the apps declared only there"
                               % (c["local"], got, sorted(here), must), gen_common.replay_data(r), found_input=True)
         elif "partition" in c:
